@@ -33,6 +33,7 @@ CONSTANTS
   LeafVals,     \* set of tensor values a constructor may produce
   UnOps,        \* set of <<op, par>> applicable to one tensor
   BinOps,       \* set of <<op, par>> applicable to two tensors
+  CtorShapes,   \* set of <<kind, shape>>: the dims-taking constructors (Full / Zeros / Ones) and the shapes they are called with
   AllowReset,   \* BOOLEAN: ResetGradContext is part of the alphabet
   AllowScribble,\* BOOLEAN: the environment may overwrite caller-owned slices
   Dev,          \* named deviations switched on in the machine itself ({} = the design)
@@ -76,6 +77,12 @@ Ancestors(z) == {z} \cup UNION {Ancestors(Tgt(e)) : e \in Edges(z)}
 Create(v, tr) ==
   /\ bp.phase = "idle" /\ Len(T) < MaxNodes
   /\ T' = Append(T, Leaf(v, tr))
+  /\ UNCHANGED <<bp, nbp, scr>>
+
+(* Full / Zeros / Ones: the caller passes a dimension list (which it may overwrite afterwards, see Scribble) *)
+Construct(kind, shape, tr) ==
+  /\ bp.phase = "idle" /\ Len(T) < MaxNodes
+  /\ T' = Append(T, Leaf(Full(shape, CASE kind = "full" -> Q(-7, 2) [] kind = "zeros" -> Zero [] kind = "ones" -> One), tr))
   /\ UNCHANGED <<bp, nbp, scr>>
 
 ArgDims(args) == [a \in DOMAIN args |-> T[args[a]].val.dims]
@@ -198,6 +205,7 @@ L(a) == path' = Append(path, a)
 
 Next ==
   \/ \E v \in LeafVals, tr \in BOOLEAN : Create(v, tr) /\ L(<<"create", v.dims, EncData(v.data), tr>>)
+  \/ \E c \in CtorShapes, tr \in BOOLEAN : Construct(c[1], c[2], tr) /\ L(<<"ctor", c[1], c[2], tr>>)
   \/ \E u \in UnOps, a \in Ids : Op(u[1], u[2], <<a>>) /\ L(<<"op", u[1], EncParOf(u[2]), <<a>>>>)
   \/ \E b \in BinOps, a1, a2 \in Ids : Op(b[1], b[2], <<a1, a2>>) /\ L(<<"op", b[1], EncParOf(b[2]), <<a1, a2>>>>)
   \/ \E r \in Ids : BPStart(r) /\ L(<<"bp", r>>)
